@@ -198,6 +198,23 @@ def run(chk, repo):
     n = int_const(reads[0][1]["n"]) if reads else None
     ch = repo.cls("ebpfcat.terminals.EL6002.Channel")
     ev = Evaluator(repo, ch.module, ch)
+    # every serial channel class (the EL6022's inherits from the EL6002's):
+    # the string it declares - or inherits - holds a whole chunk
+    for sub in repo.subclasses(ch.qualname):
+        if sub is ch:
+            continue
+        for name in ("out_string", "in_string"):
+            _, d = repo.lookup(sub, name)
+            b = match("PacketDesc($sm, $pos, $fmt)", d) \
+                if d is not None else None
+            fmt = str_const(b["fmt"]) if b is not None else None
+            cap = calcsize(fmt) - 1 if fmt and fmt.endswith("p") else None
+            chk.ob("R28.2", sub.qualname, f"{name}: a chunk of {n} bytes "
+                   f"fits the {fmt!r} string", cap is not None and n is not
+                   None and n <= cap, d if d is not None else sub.node,
+                   f"capacity {cap} bytes (a pascal string of count N "
+                   f"holds N-1 bytes): longer chunks are truncated "
+                   f"silently by pack()")
     for name in ("out_string", "in_string"):
         d = ch.attrs.get(name)
         b = match("PacketDesc($sm, $pos, $fmt)", d) if d is not None else None
@@ -244,3 +261,23 @@ def run(chk, repo):
     chk.ob("R28.2", S + ".__init__", "each device variable is linked to the "
            "channel variable of the same name", not fails, si,
            f"not linked: {fails}" if fails else "8 links")
+    # the application side is a byte stream: update() takes what fits the
+    # terminal's string and leaves the rest for the next cycle.  A pipe in
+    # packet mode (O_DIRECT) throws the rest of a write away.
+    pipes = find("os.pipe2($f)", si)
+    chk.floor("R28.2", "pipes of a serial device", len(pipes), 2)
+    rd_ = ReachingDefs(CFG(si))
+    for c, b in pipes:
+        fl = b["f"]
+        names = {x.attr for x in ast.walk(fl) if isinstance(x, ast.Attribute)
+                 and x.attr.startswith("O_")}
+        if isinstance(fl, ast.Name):
+            for s_, v_ in assigned_values(si, fl.id):
+                names |= {x.attr for x in ast.walk(v_) if isinstance(
+                    x, ast.Attribute) and x.attr.startswith("O_")}
+        ok = "O_NONBLOCK" in names and names <= {"O_NONBLOCK", "O_CLOEXEC"}
+        chk.ob("R28.2", S + ".__init__", "the pipe is a non-blocking byte "
+               "stream", ok, c, f"flags {sorted(names)}: in packet mode a "
+               f"read shorter than what was written discards the rest, "
+               f"every chunk beyond the first 22 bytes of a write is lost"
+               if not ok else "os.O_NONBLOCK")
